@@ -37,13 +37,22 @@ func (s *vwSink) Write(p []byte) (int, error) {
 	return len(p), nil
 }
 
-// vwData is a deterministic, mildly compressible byte pattern.
+// vwData is a deterministic, mildly compressible byte pattern: near repeats
+// (distance 7) and, when period > 0, a copy of everything period bytes back
+// (period is chosen just beyond the window, so a match finder that honours the
+// window must not use it).
 func vwData(n int) []byte {
+	return vwDataP(n, 0)
+}
+
+func vwDataP(n int, period int) []byte {
 	d := make([]byte, n)
 	x := uint32(12345)
 	for i := range d {
 		x = x*1103515245 + 12345
-		if (x>>16)&7 < 5 && i >= 7 {
+		if period > 0 && i >= period {
+			d[i] = d[i-period]
+		} else if period == 0 && (x>>16)&7 < 5 && i >= 7 {
 			d[i] = d[i-7]
 		} else {
 			d[i] = byte('a' + (x>>20)%23)
@@ -80,6 +89,18 @@ func vwNew(setting int, dst io.Writer, tinyW int) *Writer {
 
 // vwBig is the write size that certainly fills the internal buffer once.
 func vwBig(setting int, tinyW int) int {
+	if verifrt.Param("BIGEXACT") == 1 {
+		// exactly the internal buffer size
+		switch setting {
+		case 0:
+			return 64 * 1024
+		case 1, 2:
+			return 2*32*1024 + 258
+		case 3, 4:
+			return 2*4096 + 258
+		}
+		return 2*tinyW + 258
+	}
 	switch setting {
 	case 0:
 		return 64*1024 + 10
@@ -157,6 +178,10 @@ func VerifWrSeq() {
 	w := vwNew(setting, sink, tinyW)
 	big := vwBig(setting, tinyW)
 	data := vwData(K*big + 64)
+	if verifrt.Param("FAR") == 1 {
+		// only repeats just beyond the window
+		data = vwDataP(K*big+64, vwWindow(setting, tinyW)+104)
+	}
 	pos := 0
 	var written []byte
 	closed := false
@@ -411,8 +436,8 @@ func VerifWrPartition() {
 		w.Close()
 		return s.b
 	}
-	p := int(verifrt.U16())
-	verifrt.Assume(p >= F && p <= L)
+	p := int(verifrt.U32() & 0x3ffff)
+	verifrt.Assume(p >= F && p <= L && p >= verifrt.Param("PLO") && p <= verifrt.Param("PHI"))
 	p = verifrt.Concretize(p)
 	a := run(-1)
 	b := run(p)
